@@ -36,7 +36,15 @@ func TestVerif(t *testing.T) {
 	runs, idle := int64(0), int64(0)
 	perScn := map[string][2]int{}
 	const par = 6
+	leaked := 0 // pipelines abandoned because they had not gone idle in time (they keep their goroutines and memory)
 	for round := 0; time.Since(start) < budget; round++ {
+		mu.Lock()
+		tooMany := leaked >= 6
+		mu.Unlock()
+		if tooMany {
+			r.Cap("six pipelines did not go idle within 5 s of real time (overloaded machine or a recorded wedge): the race pass stops early instead of piling up abandoned pipelines")
+			break
+		}
 		var wg sync.WaitGroup
 		sem := make(chan struct{}, par)
 		for i, sc := range scs {
@@ -53,7 +61,7 @@ func TestVerif(t *testing.T) {
 				defer func() { <-sem }()
 				// delays and time-outs alternate between the scenario's own and ten times shorter ones
 				scale := []int{10, 3, 1}[round%3]
-				ok := hpipe.FreeRun(sc, scale, 2*time.Second)
+				ok := hpipe.FreeRun(sc, scale, 5*time.Second)
 				mu.Lock()
 				runs++
 				c := perScn[sc.Name]
@@ -61,6 +69,8 @@ func TestVerif(t *testing.T) {
 				if ok {
 					idle++
 					c[1]++
+				} else {
+					leaked++
 				}
 				perScn[sc.Name] = c
 				mu.Unlock()
